@@ -147,9 +147,40 @@ HELPERS = {
 }
 
 
+APP = 'mchap.application.'
+CSG = 'program.call_sample_genotypes'
+_TRACE_C = [CM + 'classes.GenotypeAllelesMultiTrace', CM + 'classes.PosteriorGenotypeAllelesDistribution']
+_SUMMARY_FIELDS = ['GT', 'GPM', 'GQ', 'SPM', 'SQ', 'MCI', 'AFP', 'ACP', 'AOP', 'GP']
+
+# what a property owns inside the shared per-locus orchestrators: (program module, description, callee prefixes, output fields)
+SLICES = {
+    'C01': [('assemble', 'construction and fit of the assembly sampler', [AM + 'mcmc.DenovoMCMC'], None)],
+    'C15': [('assemble', 'construction and fit of the assembly sampler', [AM + 'mcmc.DenovoMCMC'], None)],
+    'C02': [('call', 'construction, fit and burn-in of the calling sampler', [CM + 'classes.CallingMCMC', CM + 'classes.GenotypeAllelesMultiTrace.burn'], None)],
+    'C03': [('call_exact', 'exact posterior calls and the fields derived from them', [CM + 'exact.', J + '.index_as_genotype_alleles'],
+             ['GT', 'GPM', 'GQ', 'SPM', 'SQ', 'AFP', 'ACP', 'AOP', 'GP', 'GL'])],
+    'C13': [('assemble', 'haplotype reporting', [AM + 'haplotype_calling.', APP + 'assemble._genotype', 'mchap.mset.categorize'],
+             ['GT', 'GP', 'AFP', 'AOP', 'ACP', 'REFMASKED'])],
+    'C14': [('assemble', 'trace summaries', [AM + 'classes.'], ['GPM', 'GQ', 'SPM', 'SQ', 'MCI']),
+            ('call', 'trace summaries', _TRACE_C, _SUMMARY_FIELDS),
+            ('call_pedigree', 'trace summaries', _TRACE_C + [PM + 'classes.PedigreeAllelesMultiTrace.burn', PM + 'classes.PedigreeAllelesMultiTrace.individual'], _SUMMARY_FIELDS)],
+    'C16': [('call', 'masked alleles and prior frequencies', [CM + 'classes.CallingMCMC', CM + 'classes.GenotypeAllelesMultiTrace.relabel'], ['AFPRIOR', 'GT']),
+            ('call_exact', 'prior frequencies', [CM + 'exact.'], ['AFPRIOR'], ['frequencies', 'haplotypes']),
+            ('call_pedigree', 'masked alleles and prior frequencies', [PM + 'classes.PedigreeCallingMCMC', CM + 'classes.GenotypeAllelesMultiTrace.relabel'], ['AFPRIOR', 'GT'])],
+    'C17': [('call_pedigree', 'pedigree error statistic', [PM + 'classes.PedigreeAllelesMultiTrace.incongruence'], ['PEDERR'])],
+    'C18': [('call_pedigree', 'construction, fit and burn-in of the pedigree sampler',
+             [PM + 'classes.PedigreeCallingMCMC', PM + 'classes.PedigreeAllelesMultiTrace.burn', PM + 'classes.PedigreeAllelesMultiTrace.individual'], None)],
+}
+
+
 def run(ctx, pid):
     rule = f"R{pid[1:]}.H/reference-agreement"
     n = 0
     for mod, names in HELPERS.get(pid, ()):
         n += refspec.compare_module(ctx, mod, names, rule)
+    for prog, what, prefixes, fields, *rest in SLICES.get(pid, ()):
+        mod = APP + prog
+        specs = refspec.load_specs(mod)
+        refspec.compare_slice(ctx, f"{mod}.{CSG}", specs[CSG], f"R{pid[1:]}.S/slice-agreement", what, tuple(prefixes), fields, rest[0] if rest else None)
+        n += 1
     return n
